@@ -38,9 +38,12 @@ func (c parseCfg) String() string {
 
 var hostAVX512 = cpuid.CPU.Has(cpuid.AVX512F)
 
+// kernelSwitching is false while several caller goroutines run at once (CPU feature state is process-wide).
+var kernelSwitching = true
+
 // setKernel selects the stage-1 kernel family through the dependency's own seam.
 func setKernel(avx512 bool) {
-	if !hostAVX512 {
+	if !hostAVX512 || !kernelSwitching {
 		return
 	}
 	if avx512 {
